@@ -1,4 +1,5 @@
 import XjsModel.Proofs.ParserPlainPass
+import XjsModel.Proofs.ParserEventsPass
 /-
   C04 — Plugin interception is transparent, ordered and re-entrant.
 
@@ -152,6 +153,25 @@ example : ∃ r, parseProgram { stmtI := [⟨1⟩, ⟨2⟩], exprI := [⟨3, .ob
   rw [parseProgram, programLoop]
   simp [PS.init, PS.cur, dummyTok]
 
+/-! ### every parse step is announced, exactly once -/
+
+/-- after an error-free parse the recorded interceptor events are exactly those `Spec/Events` assigns to the returned
+    tree: for every statement slot of the tree (an entry of a statement list, a branch, a loop body) one event per
+    statement interceptor in installation order, for every expression slot (operand of a prefix or binary operator,
+    argument, element, key, value, property, index, condition, initialiser, parenthesised expression, expression
+    statement) one event per expression interceptor in installation order up to the first re-entrant one — on the slot's
+    first token, in source order, nothing else, nothing twice. For every token list, mode, table and interceptor chain. -/
+theorem every_parse_step_is_announced_once (cfg : PCfg) (toks : List Token) (r : ParseResult)
+    (h : parseProgram cfg toks = some r) (hok : r.errors = []) :
+    r.final.trace = r.prog.stmtsEv cfg.stmtI cfg.exprI [.global] :=
+  (trace_is_the_tree's cfg toks r h hok).1
+
+/-! Non-vacuity: one statement `a + b` with one statement observer and one expression observer gives three events -/
+example (ta tp tb : Token) :
+    (StmtList.cons (.exprS (.binary tp (.ident ⟨ta, ta.lit⟩) tp.lit (.ident ⟨tb, tb.lit⟩))) .nil).stmtsEv [⟨7⟩] [⟨9, .observe⟩] [.global] =
+      [mkEv false 7 ta [.global], mkEv true 9 ta [.global], mkEv true 9 tb [.global]] := by
+  simp [StmtList.stmtsEv, Stmt.innerEv, Expr.innerEv, stepS, stepE, effE, Stmt.firstTok, Expr.firstTok, tokOf]
+
 end Xjs.C04
 
 #print axioms Xjs.C04.statement_step_transparent
@@ -162,3 +182,4 @@ end Xjs.C04
 #print axioms Xjs.C04.precedence_restored
 #print axioms Xjs.C04.expression_observers_in_order
 #print axioms Xjs.C04.reentrant_interceptor_sees_entry_state
+#print axioms Xjs.C04.every_parse_step_is_announced_once
